@@ -376,4 +376,132 @@ theorem fn_frac_range {n d : Nat} (hn0 : 0 < n) (hnd : n < d) :
       rw [Rat.div_mul_cancel hne, Rat.one_mul]; exact hlt
     exact (Rat.mul_lt_mul_right hd).mp this
 
+/-! ### `new_approx` -/
+
+theorem fn_decimal_range {v : Rat} (hv : 0 < v) :
+    0 ≤ v - (ratTrunc v : Rat) ∧ v - (ratTrunc v : Rat) < 1 := by
+  rw [ratTrunc_nonneg (Rat.le_of_lt hv)]
+  have h1 := Rat.floor_le v
+  have h2 := Rat.lt_floor_add_one v
+  push_cast at h2
+  constructor <;> grind
+
+theorem fn_whole_cast {v : Rat} (hv : 0 < v) (hne : wholeOf v ≠ u32Max) :
+    ((wholeOf v : Nat) : Rat) = (ratTrunc v : Rat) := by
+  rw [ratTrunc_nonneg (Rat.le_of_lt hv)]
+  have := toU32_trunc_exact (Rat.le_of_lt hv) hne
+  unfold wholeOf
+  exact_mod_cast this
+
+/-- the comparison of the looked-up entry `e` with any other admissible fraction `n'/d'`, in ℚ -/
+theorem fn_lookup_vs (v : Rat) (hv : 0 < v) (hne : wholeOf v ≠ u32Max) (maxDen : Nat) (e : FracEntry)
+    (hl : lookup ratTable (v - (ratTrunc v : Rat)) maxDen = some e)
+    (n' d' : Nat) (hd : d' ∈ Gen.DENOMS) (hdm : d' ≤ maxDen) (hn0 : 0 < n') (hnd : n' < d') :
+    Rat.abs (v - ((wholeOf v : Rat) + (e.num : Rat) / (e.den : Rat))) * 10000 <
+      Rat.abs (v - ((wholeOf v : Rat) + (n' : Rat) / (d' : Rat))) * 10000 + 2 := by
+  have hsorted : keysSorted ratTable = true := by decide +kernel
+  have hok : tableOK Gen.DENOMS ratTable = true := by decide +kernel
+  unfold lookup at hl
+  obtain ⟨hmem, hden, hnear⟩ := (fn_lookupKey_nearest ratTable hsorted _ maxDen).1 e hl
+  obtain ⟨e', he'm, he'k, he'd, he'v⟩ := fn_covers_frac fn_ratTable_covers hd hn0 hnd
+  have hdist := (hnear e' he'm (Nat.le_trans he'd hdm)).1
+  have hek := fn_covers_entry fn_ratTable_covers hmem
+  have heok := (List.all_eq_true.mp hok) e hmem
+  simp only [entryOK, Bool.and_eq_true, decide_eq_true_eq] at heok
+  obtain ⟨hx0, hx1⟩ := fn_decimal_range hv
+  obtain ⟨hy0, hy1⟩ := fn_frac_range heok.1.1 heok.1.2
+  obtain ⟨hy0', hy1'⟩ := fn_frac_range hn0 hnd
+  have := fn_key_to_rat hx0 hx1 hy0 hy1 hy0' hy1' e e' hek he'k hdist
+  rw [fn_whole_cast hv hne]
+  have e1 : v - ((ratTrunc v : Rat) + (e.num : Rat) / (e.den : Rat)) =
+      v - (ratTrunc v : Rat) - (e.num : Rat) / (e.den : Rat) := by grind
+  have e2 : v - ((ratTrunc v : Rat) + (n' : Rat) / (d' : Rat)) =
+      v - (ratTrunc v : Rat) - (n' : Rat) / (d' : Rat) := by grind
+  rw [e1, e2]; exact this
+
+/-- **Nearest admissible table fraction.**  A result of `new_approx` with a fractional part (`num ≠ 0`: it came from the
+    table, the rounding-to-an-integer branch was not taken) has as whole part the truncation of the value, and its
+    error is smaller than the error of EVERY other admissible fraction `whole + n'/d'` (supported denominator
+    `d' ≤ max_den`, `0 < n' < d'`) up to two fixed-point units: `|err| < |v − (whole + n'/d')| + 2·10⁻⁴`.
+    (Exactly nearest in fixed-point key space: `fn_lookupKey_nearest`; the slack is real, see the examples in
+    Props/C12.lean.) -/
+theorem fn_newApprox_nearest (v acc : Rat) (maxDen maxWhole w n d : Nat) (err : Rat)
+    (h : newApprox ratTable v acc maxDen maxWhole = some (.fraction w n d err)) (hn : n ≠ 0) :
+    w = wholeOf v ∧ ∀ n' d', d' ∈ Gen.DENOMS → d' ≤ maxDen → 0 < n' → n' < d' →
+      Rat.abs err * 10000 < Rat.abs (v - ((w : Rat) + (n' : Rat) / (d' : Rat))) * 10000 + 2 := by
+  obtain ⟨hv, _, hne, hc⟩ := newApprox_cases ratTable v acc maxDen maxWhole _ h
+  rcases hc with ⟨h1, _⟩ | ⟨h1, _⟩ | ⟨e, hl, h1, _⟩
+  · cases h1
+  · cases h1; exact absurd rfl hn
+  · cases h1
+    refine ⟨rfl, ?_⟩
+    intro n' d' hd hdm hn0 hnd
+    exact fn_lookup_vs v hv hne maxDen e hl n' d' hd hdm hn0 hnd
+
+/-- why `new_approx` returns nothing for a positive value whose whole part is within the limit -/
+theorem fn_newApprox_none_cases (t : List FracEntry) (v acc : Rat) (maxDen maxWhole : Nat)
+    (h : newApprox t v acc maxDen maxWhole = none) (hv : 0 < v) (hw : wholeOf v ≤ maxWhole)
+    (hne : wholeOf v ≠ u32Max) :
+    ¬ (v - (ratTrunc v : Rat) < Gen.APPROX_EPS.rat) ∧
+    ¬ (Rat.abs (v - (ratRound v : Rat)) < acc * v ∧ 0 < roundedOf v ∧ roundedOf v ≤ maxWhole) ∧
+    (lookup t (v - (ratTrunc v : Rat)) maxDen = none ∨
+      ∃ e, lookup t (v - (ratTrunc v : Rat)) maxDen = some e ∧
+        acc * v < Rat.abs (v - ((wholeOf v : Rat) + (e.num : Rat) / (e.den : Rat)))) := by
+  unfold newApprox at h
+  simp only [rat_le, rat_isFinite, rat_ofNat, rat_lt, rat_toU32, rat_trunc, rat_fract, rat_const,
+    rat_round, rat_sub, rat_mul, rat_abs, rat_add, rat_div, rat_abs_eq, ratTrunc_intCast,
+    decide_eq_true_eq, Bool.or_eq_true, Bool.and_eq_true, Bool.not_true] at h
+  split at h
+  · rename_i h0
+    exfalso
+    have : v ≤ 0 := by simpa using h0
+    grind
+  split at h
+  · rename_i h1
+    exfalso
+    have : wholeOf v > maxWhole ∨ wholeOf v = u32Max := by simpa [wholeOf] using h1
+    omega
+  split at h
+  · cases h
+  rename_i h2
+  split at h
+  · cases h
+  rename_i h3
+  refine ⟨by simpa using h2, ?_, ?_⟩
+  · intro hc
+    exact h3 ⟨⟨hc.1, hc.2.1⟩, hc.2.2⟩
+  · split at h
+    · rename_i hl; exact Or.inl hl
+    · rename_i e hl
+      split at h
+      · rename_i h5; exact Or.inr ⟨e, hl, by simpa [wholeOf] using h5⟩
+      · cases h
+
+/-- **Completeness, as far as it holds.**  For a positive value whose whole part is within the limit, `new_approx`
+    declines only if the value is not an integer (up to 1e-10), rounding to an integer is not within the accuracy, and
+    NO admissible fraction `whole + n'/d'` is within the accuracy less two fixed-point units:
+    `accuracy·v < |v − (whole + n'/d')| + 2·10⁻⁴` for every one of them. -/
+theorem fn_newApprox_complete (v acc : Rat) (maxDen maxWhole : Nat)
+    (h : newApprox ratTable v acc maxDen maxWhole = none) (hv : 0 < v) (hw : wholeOf v ≤ maxWhole)
+    (hne : wholeOf v ≠ u32Max) :
+    ¬ (v - (ratTrunc v : Rat) < Gen.APPROX_EPS.rat) ∧
+    ¬ (Rat.abs (v - (ratRound v : Rat)) < acc * v ∧ 0 < roundedOf v ∧ roundedOf v ≤ maxWhole) ∧
+    ∀ n' d', d' ∈ Gen.DENOMS → d' ≤ maxDen → 0 < n' → n' < d' →
+      acc * v * 10000 < Rat.abs (v - ((wholeOf v : Rat) + (n' : Rat) / (d' : Rat))) * 10000 + 2 := by
+  obtain ⟨h1, h2, h3⟩ := fn_newApprox_none_cases ratTable v acc maxDen maxWhole h hv hw hne
+  refine ⟨h1, h2, ?_⟩
+  intro n' d' hd hdm hn0 hnd
+  rcases h3 with hl | ⟨e, hl, herr⟩
+  · exfalso
+    have hsorted : keysSorted ratTable = true := by decide +kernel
+    unfold lookup at hl
+    have hnone := (fn_lookupKey_nearest ratTable hsorted _ maxDen).2 hl
+    obtain ⟨e', he'm, _, he'd, _⟩ := fn_covers_frac fn_ratTable_covers hd hn0 hnd
+    exact hnone e' he'm (Nat.le_trans he'd hdm)
+  · have := fn_lookup_vs v hv hne maxDen e hl n' d' hd hdm hn0 hnd
+    have h4 : acc * v * 10000 <
+        Rat.abs (v - ((wholeOf v : Rat) + (e.num : Rat) / (e.den : Rat))) * 10000 :=
+      (Rat.mul_lt_mul_right (by decide)).mpr herr
+    grind
+
 end Cook
